@@ -105,6 +105,13 @@ pub fn run(job: &Job) -> Result<u32, (&'static str, PanicInfo)> {
                     let _ = pm.get_tile(0, 0, 0);
                     let _ = pm.get_tile(u64::MAX, 1, 31);
                     let _ = pm.get_tile(1, 1, 200);
+                    // coordinates at the edge of what the id space can hold (zooms 31, 32, 33; largest in-grid values)
+                    for z in [31u8, 32, 33, 63, 64, 255] {
+                        let m = if z >= 64 { u64::MAX } else { (1u64 << z) - 1 };
+                        let _ = pm.get_tile(m, 0, z);
+                        let _ = pm.get_tile(m, m, z);
+                        let _ = pm.get_tile(0, m, z);
+                    }
                 }
             });
             api!(4, {
@@ -128,6 +135,11 @@ pub fn run(job: &Job) -> Result<u32, (&'static str, PanicInfo)> {
                         let _ = block_on(pm.get_tile_by_id_async(id));
                     }
                     let _ = block_on(pm.get_tile_async(u64::MAX, 0, 40));
+                    for z in [31u8, 32, 33] {
+                        let m = (1u64 << z) - 1;
+                        let _ = block_on(pm.get_tile_async(m, m, z));
+                        let _ = block_on(pm.get_tile_async(m, 0, z));
+                    }
                     let mut out = futures::io::Cursor::new(Vec::new());
                     let _ = block_on(pm.to_async_writer(&mut out));
                 }
